@@ -8,6 +8,7 @@ package retry
 
 import (
 	"context"
+	"math"
 	"net/http"
 	"strconv"
 	"strings"
@@ -87,7 +88,7 @@ func (c Config) Validate() Config {
 	}
 
 	// Clamp BackoffFactor to reasonable range
-	if validated.BackoffFactor < MinBackoffFactor {
+	if validated.BackoffFactor < MinBackoffFactor || math.IsNaN(validated.BackoffFactor) {
 		validated.BackoffFactor = MinBackoffFactor
 	} else if validated.BackoffFactor > MaxBackoffFactor {
 		validated.BackoffFactor = MaxBackoffFactor
